@@ -14,7 +14,24 @@ VARIABLES ops, hs, fin, pend
 vars == <<ops, hs, fin, pend>>
 \* points in units of 1/2 px
 Pts == {<<4, 4>>, <<26, 6>>, <<16, 28>>, <<8, 18>>, <<22, 20>>, <<13, 9>>, <<-6, 12>>, <<30, 30>>}
-Init == ops = <<>> /\ hs = SALT /\ fin = FALSE /\ pend = ""
+\* MODE = "strings": every op-kind string of length 2..NOPS over {M, L, Q, C, Z} that contains a
+\* curve (no leading Z, no ZZ), with points assigned from the menu by position
+MODE == EnvStr("MODE", "build")
+PtSeq == << <<4, 4>>, <<26, 6>>, <<16, 28>>, <<8, 18>>, <<22, 20>>, <<13, 9>>, <<-6, 12>>, <<30, 30>> >>
+Pt(i, j) == PtSeq[((i * 5 + j * 3 + SALT) % 8) + 1]
+OpOf(k, i) == CASE k = "M" -> <<"M", Pt(i, 0)[1], Pt(i, 0)[2]>>
+                [] k = "L" -> <<"L", Pt(i, 1)[1], Pt(i, 1)[2]>>
+                [] k = "Q" -> <<"Q", Pt(i, 2)[1], Pt(i, 2)[2], Pt(i, 3)[1], Pt(i, 3)[2]>>
+                [] k = "C" -> <<"C", Pt(i, 4)[1], Pt(i, 4)[2], Pt(i, 5)[1], Pt(i, 5)[2], Pt(i, 6)[1], Pt(i, 6)[2]>>
+                [] k = "Z" -> <<"Z">>
+KindStrings == {ks \in UNION {[1..n -> {"M", "L", "Q", "C", "Z"}] : n \in 2..NOPS} :
+                  /\ ks[1] # "Z"
+                  /\ \A i \in 1..(Len(ks) - 1) : ~(ks[i] = "Z" /\ ks[i + 1] = "Z")
+                  /\ \E i \in 1..Len(ks) : ks[i] \in {"Q", "C"}}
+Init == IF MODE = "strings"
+        THEN /\ \E ks \in KindStrings : ops = [i \in 1..Len(ks) |-> OpOf(ks[i], i)] /\ hs = (Len(ks) * 7919 + SALT) % 1000003
+             /\ fin = TRUE /\ pend = ""
+        ELSE ops = <<>> /\ hs = SALT /\ fin = FALSE /\ pend = ""
 HP(p) == p[1] * 7 + p[2] * 3 + 100
 Add(op, h) == /\ ops' = Append(ops, op) /\ hs' = (hs * 31 + h) % 1000003 /\ pend' = "" /\ UNCHANGED fin
 \* the kind of the next op is chosen first (so that simulation picks the five kinds with equal
